@@ -1,4 +1,5 @@
 import StorageModel.C16.Lemmas
+import StorageModel.Generated.C16Setters
 /-
   C16 — System entities can only be changed from a system context.
 
@@ -647,6 +648,77 @@ theorem unchanged_update_allowed (s : St K N T) (id : K) (e : Ent K N T) (hg : s
     cases sn <;> cases st <;> cases so <;> simp [h1, h2, h3]
   rw [he]
   simp
+
+/-! ### round 9: the setters of the entity strategy (the bucket's error holder) -/
+
+/-- **a bucket whose error holder is set is never written** — by any `PersistEntity`: any sequence of
+    setter calls of any kind (`SetString`, `SetRequiredString`, `SetStringP`, `GetAndSetString`,
+    `SetBool`, `SetInt32/64`, `SetFloat64`, `SetTime(P)`, `PutMap`, `PutList`, `SetStringList`,
+    `GetAndSetStringList`, `SetLinkedIds`), in any order, with any checker: content, error and the
+    "anything was Put" mark are what they were. -/
+theorem errored_bucket_never_written (ws : List (Write K N T)) (b : Bkt K N T) (h : b.err.isSome = true) :
+    runWrites ws b = b := runWrites_errored ws h
+
+/-- **a refused update writes nothing, whatever setters the entity strategy is made of**: `Update` of
+    a protected entity from an ordinary context, for EVERY strategy `ws` (schema parameter: which
+    setters `PersistEntity` calls, on which fields, in which order, under which checker — including a
+    `SetRequiredString` handed a blank or a non-blank value): `ProcessBeforeUpdate` puts
+    `ENTITY_CAN_NOT_BE_UPDATED` into the bucket's error holder, no setter proceeds, nothing is `Put`,
+    `ProcessAfterUpdate` is skipped and that very error is returned (no later setter replaces or
+    clears it).  The stores of the universe are the instance `ws = stratWrites …`
+    (`update_runs_strategy`); the harness runs the plain (`SetString`) and the wide (every setter)
+    strategies against the same model. -/
+theorem refused_update_any_strategy (ws : List (Write K N T)) (s : St K N T) (id : K) (e : Ent K N T)
+    (hg : s.ents.get id = some e) (hp : e.protectedBy s.reg = true) :
+    updateWith ws s false id e = { st := s, err := some .sysUpdate } := by
+  unfold updateWith
+  rw [refused_of_get hg]
+  have h0 : runWrites ws ({ ent := e, err := some .sysUpdate } : Bkt K N T) = { ent := e, err := some .sysUpdate } :=
+    runWrites_errored _ rfl
+  simp [hp, h0]
+
+/-- **every setter of the code is a gated write of the model** (tie by extraction): each of the
+    persistence setters of `*TypedBucket` (those taking a `FieldChecker`) and `*PersistContext` in
+    the current source has a shape the model has a meaning for (`SetterShape.write`: a `Write.set` or,
+    for `SetRequiredString`, a `Write.require`), both `ProceedWithSet` functions are
+    `bucket.Err == nil && (checker == nil || checker.IsUpdated(name))`, and the setters the harness's
+    strategies call are among them.  So ANY `PersistEntity` written with these setters is a
+    `List Write`, to which `refused_update_any_strategy` applies. -/
+theorem every_setter_is_a_gated_write :
+    Generated.c16GateOk = true ∧ (∀ p ∈ Generated.c16Setters, p.2.modelled = true) ∧
+    (∀ n ∈ ["PersistContext.SetString", "PersistContext.SetRequiredString", "PersistContext.SetStringP",
+            "PersistContext.GetAndSetString", "PersistContext.SetInt32", "PersistContext.SetInt64",
+            "PersistContext.SetBool", "PersistContext.SetTimeP", "PersistContext.SetStringList",
+            "PersistContext.GetAndSetStringList", "PersistContext.SetMap", "PersistContext.SetLinkedIds",
+            "TypedBucket.SetTime", "TypedBucket.SetTimeP", "TypedBucket.SetFloat64", "TypedBucket.PutList",
+            "TypedBucket.PutMap", "TypedBucket.SetBool"],
+      (Generated.c16Setters.lookup n).isSome = true) := by decide
+
+/-- `S.Update` / `C.Update` of the model ARE `updateWith` the universe's strategy -/
+theorem update_runs_strategy (s : St K N T) (id : K) (e : Ent K N T) (hg : s.ents.get id = some e) (sys : Bool)
+    (v : Vals K N T) (sn st so : Bool) :
+    step s (.update sys id v sn st so) = updateWith (stratWrites v sn st so none) s sys id e ∧
+    ∀ (sl : Bool) (lvl : N), e.level.isSome = true →
+      step s (.cupdate sys id v sn st so sl lvl) = updateWith (stratWrites v sn st so (some (sl, lvl))) s sys id e := by
+  refine ⟨by rw [step_update_found hg]; rfl, ?_⟩
+  intro sl lvl hl
+  have hn : e.level.isNone = false := by cases h : e.level <;> simp_all
+  rw [step_cupdate_found hg, hn]; rfl
+
+/-- where nothing refuses (ordinary entity, or a system context) a strategy of plain setters under a
+    nil checker writes all its fields: the gate is the error holder, nothing else -/
+theorem allowed_update_writes (fs : List (Ent K N T → Ent K N T)) (b : Bkt K N T) (h : b.err = none) :
+    (runWrites (fs.map (Write.set true)) b).ent = fs.foldl (fun e f => f e) b.ent ∧
+    (runWrites (fs.map (Write.set true)) b).err = none := by
+  induction fs generalizing b with
+  | nil => exact ⟨rfl, h⟩
+  | cons f fs ih =>
+    have hr : (Write.set true f).run b = { b with ent := f b.ent, wrote := true } := by
+      simp [Write.run, Bkt.proceedWithSet, h]
+    show (runWrites (fs.map (Write.set true)) ((Write.set true f).run b)).ent = _ ∧
+      (runWrites (fs.map (Write.set true)) ((Write.set true f).run b)).err = none
+    rw [hr]
+    exact ih _ h
 
 /-- no bucket has child data -/
 def NoKids (s : St K N T) : Prop := ∀ p ∈ s.ents, p.2.level = none
@@ -1359,8 +1431,32 @@ example : ((step (runHist (St.empty regP) demoHistP) (.update true 2 (vals true 
 /-- with the constraint on S the same operations on entity 2 are refused -/
 example : (step (runHist (St.empty regS) demoHistC) (.delete false 2)).err = some .sysDelete := by decide
 
+/-- round 9, non-vacuity: a strategy made of a `SetRequiredString` and two plain setters on system
+    entity 1 — refused from an ordinary context with the state untouched, run in full from a system
+    context (the required setter handed a blank value raises its own error after the first write) -/
+def demoWrites (blank : Bool) : List (Write Nat Nat Nat) :=
+  [.set true (fun e => { e with tags := some 5 }), .require true blank .blank (fun e => { e with name := 99 }),
+   .set true (fun e => { e with owner := none })]
+def demoEnt1 : Ent Nat Nat Nat :=
+  { flag := some true, name := 12, tags := some 12, created := .given 1000, updated := .now, owner := some 7,
+    level := none, peers := [] }
+example : (updateWith (demoWrites false) (runHist (St.empty regS) demoHist) false 1 demoEnt1).err = some .sysUpdate ∧
+    (updateWith (demoWrites false) (runHist (St.empty regS) demoHist) false 1 demoEnt1).st.ents.get 1 = some demoEnt1 := by
+  decide
+example : (updateWith (demoWrites false) (runHist (St.empty regS) demoHist) true 1 demoEnt1).err = none ∧
+    (updateWith (demoWrites false) (runHist (St.empty regS) demoHist) true 1 demoEnt1).st.ents.get 1 =
+      some { demoEnt1 with tags := some 5, name := 99, owner := none } := by decide
+example : (updateWith (demoWrites true) (runHist (St.empty regS) demoHist) true 1 demoEnt1).err = some .blank ∧
+    (updateWith (demoWrites true) (runHist (St.empty regS) demoHist) true 1 demoEnt1).st.ents.get 1 =
+      some { demoEnt1 with tags := some 5 } := by decide
+
 end StorageModel.Properties.C16
 
+#print axioms StorageModel.Properties.C16.every_setter_is_a_gated_write
+#print axioms StorageModel.Properties.C16.errored_bucket_never_written
+#print axioms StorageModel.Properties.C16.refused_update_any_strategy
+#print axioms StorageModel.Properties.C16.update_runs_strategy
+#print axioms StorageModel.Properties.C16.allowed_update_writes
 #print axioms StorageModel.Properties.C16.system_needs_system_ctx
 #print axioms StorageModel.Properties.C16.system_needs_system_ctx_parent_registration
 #print axioms StorageModel.Properties.C16.system_needs_system_ctx_child_registration
